@@ -93,6 +93,11 @@ def _env_objects(kind, r):
             g = Rng(r["seed"], "supervised")
             X = [[g.below(5), g.below(7)] for _ in range(r["n"])]
             Y = [labels[g.below(len(labels))] for _ in range(r["n"])]
+            if r.get("categorical"):
+                # nominal labels: Finalize turns them into one-hot tuples, so with two classes the argmax of every
+                # BinaryReward is itself a 2-tuple ((1,0)/(0,1)), with one class a 1-tuple
+                from coba.primitives import Categorical
+                Y = [Categorical(y, list(labels)) for y in Y]
             envs = Environments.from_supervised(X, Y)
         elif src == "neighbors":
             envs = Environments.from_neighbors_synthetic(r["n"], n_actions=r["na"], n_context_features=2, n_action_features=2, n_neighborhoods=5, seed=r["seed"])
@@ -1059,9 +1064,9 @@ def gen_builtin(rng, tier, real_p=0.03):
         r["na"] = na
     if rng.chance(0.22):
         # string-labelled in-memory classification data, materialized so that interactions and reward objects travel pickled
-        k = na
+        k = na if rng.chance(0.5) else rng.choice([1, 2, 2, 2])      # two-class (and one-class) label sets on purpose
         start = rng.below(len(AWKWARD_LABELS))
-        sup = {"src": "supervised", "n": rng.choice([8, 12, 20]), "na": k, "seed": rng.randint(1, 9),
+        sup = {"src": "supervised", "n": rng.choice([8, 12, 20]), "na": k, "seed": rng.randint(1, 9), "categorical": rng.chance(0.6),
                "labels": [(start + 3 * j) % len(AWKWARD_LABELS) for j in range(k)],
                "prefix": rng.choice([[["materialize"]], [["shuffle_seed", 3], ["materialize"]], [["materialize"], ["chunk"]], []]),
                "branches": rng.choice([[[]], [[["shuffle", 2], ["materialize"]]], [[["materialize"]]]])}
@@ -1578,6 +1583,15 @@ def directed_cases():
                             {"type": "seq", "record": ["reward"], "seed": None, "learn": None, "eval": "ips"}],
                    "mode": "product", "pe": [0], "pl": order, "pv": [0, 1],
                    "runs": [inproc, {"cfg": [2, 0, 1], "how": "sim", "sched": 32}]})
+    # --- round f: two-class (and one-class) nominal labels, materialized: the reward's argmax is itself a 2-tuple / 1-tuple
+    cs.append({"kind": "builtin", "seed": 1,
+               "envs": [{"src": "supervised", "n": 30, "na": 2, "seed": 3, "labels": [19, 0], "categorical": True, "prefix": [], "branches": [[["shuffle", 2], ["materialize"]]]},
+                        {"src": "supervised", "n": 8, "na": 1, "seed": 4, "labels": [19], "categorical": True, "prefix": [["materialize"]], "branches": [[]]},
+                        {"src": "supervised", "n": 12, "na": 2, "seed": 5, "labels": [1, 2], "categorical": False, "prefix": [["materialize"]], "branches": [[]]}],
+               "lrns": [{"type": "random", "seed": 2}, {"type": "eps", "eps": 0.1, "seed": 4}],
+               "vals": [{"type": "seq", "record": ["reward", "action"], "seed": None}],
+               "mode": "product", "pe": [0, 1, 2, 3], "pl": [0, 1], "pv": [0], "single_eval": True,
+               "runs": [inproc, {"cfg": [2, 0, 0], "how": "sim", "sched": 51}, {"cfg": [1, 1, 0], "how": "real", "sched": 0}]})
     # --- round e
     # one default RejectionCB object over logged environments with different propensities (its data-adaptive start value
     # must be recomputed per evaluation), in-process vs workers
